@@ -373,6 +373,11 @@ namespace detail
 	{
 		GLM_STATIC_ASSERT(std::numeric_limits<T>::is_integer, "'findMSB' only accept integer values");
 
+		// GLSL: for a negative value the result is the position of its most significant 0 bit (-1 for -1),
+		// i.e. findMSB(~v); 'v >> (width - 1)' is 0 or -1 for signed T.
+		if(std::numeric_limits<T>::is_signed)
+			return detail::compute_findMSB_vec<L, T, Q, static_cast<int>(sizeof(T) * 8)>::call(v ^ (v >> static_cast<T>(sizeof(T) * 8 - 1)));
+
 		return detail::compute_findMSB_vec<L, T, Q, static_cast<int>(sizeof(T) * 8)>::call(v);
 	}
 }//namespace glm
